@@ -1,6 +1,8 @@
-(** Model of pkg/auth/any_authorizer.go and pkg/blobstore/authorizing_blob_access.go.
+(** Model of pkg/auth/any_authorizer.go, pkg/auth/static_authorizer.go over the
+    instance-name trie filled by pkg/auth/configuration/authorizer_factory.go
+    (policy instance_name_prefix) and pkg/blobstore/authorizing_blob_access.go.
     Definitions only (proofs: AuthProofs.v). *)
-From BBS Require Import Common.Sx Common.ListX.
+From BBS Require Import Common.Sx Common.ListX Routing.Names Routing.Trie.
 
 (** gRPC codes as Z: 0 = OK (allowed), 7 = PermissionDenied (denied), anything
     else = a failure other than denial. *)
@@ -8,17 +10,42 @@ Definition vd := Z.
 Definition allowed (v : vd) : bool := Z.eqb v 0.
 Definition denied (v : vd) : bool := Z.eqb v 7.
 
-(** Names are small naturals; a leaf authorizer is an oracle answering each
-    name on its own (table lookup; unknown names are denied).  Every leaf has
-    an identity so that calls can be logged. *)
+(** Names are small naturals (indices into the name alphabet of the case,
+    [nm] below).  A scripted leaf authorizer is an oracle answering each name
+    on its own (table lookup; unknown names are denied); every scripted leaf
+    has an identity so that calls can be logged.  A [Prefix] leaf is the
+    static authorizer the configuration factory builds for the policy
+    instance_name_prefix: [auth.NewStaticAuthorizer(trie.ContainsPrefix)] over
+    a fresh [digest.InstanceNameTrie] into which every allowed prefix was
+    [Set] to 0, in the order of the configuration. *)
 Inductive atree : Type :=
 | Leaf (id : nat) (tbl : list vd)
+| Prefix (ps : list (list comp))
 | Any (ms : list atree).
 
 Definition leaf_answer (tbl : list vd) (n : nat) : vd := nth n tbl 7.
 
+(** authorizer_factory.go: trie := NewInstanceNameTrie(); for each prefix: trie.Set(prefix, 0) *)
+Definition build_trie (ps : list (list comp)) : trie :=
+  fold_left (fun t p => set t p 0) ps empty_trie.
+(** static_authorizer.go: nil if the matcher (ContainsPrefix, the C19 model of
+    the Go loop) accepts the name, else the fixed PermissionDenied error. *)
+Definition prefix_answer (ps : list (list comp)) (n : list comp) : vd :=
+  if contains_prefix (build_trie ps) n then 0 else 7.
+
+(** Specification of a prefix leaf, knowing nothing about tries: the name is
+    covered iff some allowed prefix is a component-wise prefix of it. *)
+Definition covered (ps : list (list comp)) (n : list comp) : bool :=
+  existsb (fun p => is_prefix p n) ps.
+Definition prefix_sem (ps : list (list comp)) (n : list comp) : vd :=
+  if covered ps n then 0 else 7.
+
 (** A call log entry: leaf id and the names it was asked about. *)
 Definition call := (nat * list nat)%type.
+
+Section WithNames.
+(** The instance name (component list) a name index stands for. *)
+Variable nm : nat -> list comp.
 
 (** The names whose verdict so far has code PermissionDenied
     ([currentInstanceNames] in the code; the parallel index slice
@@ -48,6 +75,7 @@ Fixpoint merge (errs res : list vd) : list vd :=
 Fixpoint authorize (t : atree) (names : list nat) {struct t} : list vd * list call :=
   match t with
   | Leaf id tbl => (map (leaf_answer tbl) names, [(id, names)])
+  | Prefix ps => (map (fun n => prefix_answer ps (nm n)) names, [])   (* not a logging leaf *)
   | Any ms =>
       match ms with
       | [] => (map (fun _ => 7) names, [])       (* NewAnyAuthorizer: static deny-all *)
@@ -79,6 +107,7 @@ Fixpoint first_nondenied (vs : list vd) : vd :=
 Fixpoint sem (t : atree) (n : nat) {struct t} : vd :=
   match t with
   | Leaf _ tbl => leaf_answer tbl n
+  | Prefix ps => prefix_sem ps (nm n)
   | Any ms => first_nondenied (map (fun m => sem m n) ms)
   end.
 
@@ -141,4 +170,22 @@ Definition tree_of (get put fm : atree) (o : aop) : atree :=
   | OGet _ | OGetFromComposite _ _ => get
   | OPut _ => put
   | OFindMissing _ => fm
+  end.
+End WithNames.
+
+(** Trees made of prefix leaves and 'any' only (what a configuration without
+    scripted/remote/JMESPath members yields), and the union of their allowed
+    prefixes.  Used by the monitor clauses 4 and 5, which are stated on the
+    allowed prefixes of the input alone. *)
+Fixpoint static_only (t : atree) : bool :=
+  match t with
+  | Leaf _ _ => false
+  | Prefix _ => true
+  | Any ms => forallb static_only ms
+  end.
+Fixpoint all_prefixes (t : atree) : list (list comp) :=
+  match t with
+  | Leaf _ _ => []
+  | Prefix ps => ps
+  | Any ms => flat_map all_prefixes ms
   end.
